@@ -108,14 +108,16 @@ def _one(ex, v):
 
 
 def _setout(ex, v):
-    return [_arg(ex, v, "ns"), ex.ctx.fresh("flag", z3.BoolSort())], {}
+    return [_arg(ex, v, "ns"), verify.note_arg(ex, "flag", ex.ctx.fresh("flag", z3.BoolSort()))], {}
 
 
 def _add(uid):
     def mk(ex, v):
         fi, fo = v.split(",")
         sh = {"none": lambda t: NONE, "str": lambda t: _arg(ex, "str", t), "list": lambda t: _arg(ex, "list", t)}
-        return [_arg(ex, "str", "n"), TypeV(ex.ctx.fresh("node_type", ex.ctx.T))], {"fanin": sh[fi]("fanin"), "fanout": sh[fo]("fanout"),
+        nt = ex.ctx.fresh("node_type", ex.ctx.T)
+        verify.note_arg(ex, "node_type", nt)
+        return [_arg(ex, "str", "n"), TypeV(nt)], {"fanin": sh[fi]("fanin"), "fanout": sh[fo]("fanout"),
                                                                                     "output": ex.ctx.fresh("output", z3.BoolSort()), "uid": uid}
     return mk
 
